@@ -1,5 +1,8 @@
 import BstreamVerif.Model.HubBurst
 import BstreamVerif.Lemmas.ForkInv
+import BstreamVerif.Lemmas.SegShape
+import BstreamVerif.Lemmas.Ascending
+import BstreamVerif.Lemmas.StepCheckSound
 /-!
 # C05 — resuming from a cursor on the live hub equals never having disconnected
 
@@ -334,5 +337,284 @@ theorem burst_takes_consumer_to_hub_chain (s : FState) (h : Blk) (c : Cur) (B1a 
       rw [topOf_append, hid, hid] at this
       simpa using this
     rw [runSB_news _ _ _ hl2, hid, topOf_append]
+
+/-! ### state level: every hub state satisfying the forkable invariant -/
+section StateLevel
+open BstreamVerif.Seam BstreamVerif.Ascending
+
+private abbrev nE (e : Entry) : Nat := e.blk.num
+
+theorem filterMap_fastEv_below (s : FState) (h : Blk) (c : Cur) (l : List Entry) (hl : ∀ e ∈ l, e.blk.num ≤ c.lib.num) :
+    l.filterMap (fastEv s h c) = [] := by
+  apply filterMap_none
+  intro e he
+  unfold fastEv
+  simp [hl e he]
+
+/-- **Resuming from a New cursor on the hub's chain equals never having disconnected — for every hub state that
+    satisfies the forkable invariant** (pending chain `P`): when the cursor's block and LIB are retained on the hub's
+    chain (the cursor's LIB reference carries that block's number) and the hub's LIB has not fallen behind the
+    cursor's, the hub serves the cursor, and the burst takes the consumer that stood at the cursor — resting on the
+    cursor's LIB, holding the hub chain's blocks up to the cursor block — exactly onto the hub's own consumer state
+    `⟨LIB, P⟩`. Everything the hub delivers afterwards then continues the discipline (`C01`). -/
+theorem resume_new_cursor_on_hub_chain (s : FState) (P : List Id) (hI : Inv s P) (h : Blk) (seg : List Entry)
+    (hs : headSegment s = some (h, seg)) (hnum : ∀ e, s.db.find h.id = some e → e.blk.num = h.num)
+    (c : Cur) (hu : isUndo c = false)
+    (el : Entry) (hel : el ∈ seg) (helid : el.blk.id = c.lib.id) (helnum : el.blk.num = c.lib.num)
+    (eb : Entry) (heb : eb ∈ seg) (hebid : eb.blk.id = c.block.id)
+    (hcl : c.lib.num ≤ s.db.libRef.num) :
+    blocksFromCursor s 1 c = some (fastPath s h seg c) ∧
+    (⟨c.lib.id, (seg.filter (fun e => decide (c.lib.num < e.blk.num) && decide (e.blk.num ≤ c.block.num))).map (·.blk.id)⟩ : CS).run
+        (fastPath s h seg c) = some ⟨s.db.libRef.id, P⟩ := by
+  obtain ⟨K, PE, hseg, hP, hPE, hK, hlast, hstored⟩ := headSegment_shape s P hI h seg hs hnum
+  have hlinkE : LinkedE seg := headSegment_linked s h seg hs
+  have hasc : Asc nE seg := linkedE_ascending s.db hI.heights seg hlinkE hstored
+  -- thresholds
+  let cl := c.lib.num
+  let cbn := c.block.num
+  let L := s.db.libRef.num
+  -- seg = below ++ Z
+  have hsplit0 := split_at nE cl seg hasc
+  let below := seg.filter (fun a => decide (nE a ≤ cl))
+  let Z := seg.filter (fun a => decide (cl < nE a))
+  have hZasc : Asc nE Z := asc_filter nE _ hasc
+  have hsplit1 := split_at nE L Z hZasc
+  let Z1 := Z.filter (fun a => decide (nE a ≤ L))
+  let Z2 := Z.filter (fun a => decide (L < nE a))
+  have hsplit1a := split_at nE cbn Z1 (asc_filter nE _ hZasc)
+  have hsplit1b := split_at nE cbn Z2 (asc_filter nE _ hZasc)
+  let B1a := Z1.filter (fun a => decide (nE a ≤ cbn))
+  let B1b := Z1.filter (fun a => decide (cbn < nE a))
+  let B2a := Z2.filter (fun a => decide (nE a ≤ cbn))
+  let B2b := Z2.filter (fun a => decide (cbn < nE a))
+  have hZ : Z = B1a ++ B1b ++ B2a ++ B2b := by
+    have e1 : Z = Z1 ++ Z2 := hsplit1
+    have e2 : Z1 = B1a ++ B1b := hsplit1a
+    have e3 : Z2 = B2a ++ B2b := hsplit1b
+    calc Z = Z1 ++ Z2 := e1
+      _ = (B1a ++ B1b) ++ (B2a ++ B2b) := by rw [← e2, ← e3]
+      _ = B1a ++ B1b ++ B2a ++ B2b := by simp only [List.append_assoc]
+  -- membership facts
+  have mZ : ∀ e ∈ Z, cl < e.blk.num := by
+    intro e he; have := (List.mem_filter.mp he).2; simpa [nE] using this
+  have mZ1 : ∀ e ∈ Z1, cl < e.blk.num ∧ e.blk.num ≤ L := by
+    intro e he
+    have h1 := List.mem_filter.mp he
+    exact ⟨mZ e h1.1, by simpa [nE] using h1.2⟩
+  have mZ2 : ∀ e ∈ Z2, cl < e.blk.num ∧ L < e.blk.num := by
+    intro e he
+    have h1 := List.mem_filter.mp he
+    exact ⟨mZ e h1.1, by simpa [nE] using h1.2⟩
+  have z1a : ∀ e ∈ B1a, c.lib.num < e.blk.num ∧ e.blk.num ≤ s.db.libRef.num ∧ e.blk.num ≤ c.block.num := by
+    intro e he
+    have h1 := List.mem_filter.mp he
+    exact ⟨(mZ1 e h1.1).1, (mZ1 e h1.1).2, by simpa [nE] using h1.2⟩
+  have z1b : ∀ e ∈ B1b, c.lib.num < e.blk.num ∧ e.blk.num ≤ s.db.libRef.num ∧ c.block.num < e.blk.num := by
+    intro e he
+    have h1 := List.mem_filter.mp he
+    exact ⟨(mZ1 e h1.1).1, (mZ1 e h1.1).2, by simpa [nE] using h1.2⟩
+  have z2a : ∀ e ∈ B2a, c.lib.num < e.blk.num ∧ s.db.libRef.num < e.blk.num ∧ e.blk.num ≤ c.block.num := by
+    intro e he
+    have h1 := List.mem_filter.mp he
+    exact ⟨(mZ2 e h1.1).1, (mZ2 e h1.1).2, by simpa [nE] using h1.2⟩
+  have z2b : ∀ e ∈ B2b, c.lib.num < e.blk.num ∧ s.db.libRef.num < e.blk.num ∧ c.block.num < e.blk.num := by
+    intro e he
+    have h1 := List.mem_filter.mp he
+    exact ⟨(mZ2 e h1.1).1, (mZ2 e h1.1).2, by simpa [nE] using h1.2⟩
+  have hzone : B1b = [] ∨ B2a = [] := by
+    by_cases hc : cbn ≤ L
+    · right
+      apply List.eq_nil_iff_forall_not_mem.mpr
+      intro e he
+      obtain ⟨_, g2, g3⟩ := z2a e he
+      have : c.block.num ≤ s.db.libRef.num := hc
+      omega
+    · left
+      apply List.eq_nil_iff_forall_not_mem.mpr
+      intro e he
+      obtain ⟨_, g2, g3⟩ := z1b e he
+      have : ¬ c.block.num ≤ s.db.libRef.num := hc
+      omega
+  -- the cursor's LIB block is the last block at or below the cursor LIB height
+  have hbelow_last : below.getLast? = some el := by
+    apply last_of_max nE below (asc_filter nE _ hasc) el
+    · exact List.mem_filter.mpr ⟨hel, by simp [nE, helnum, cl]⟩
+    · intro x hx
+      have := (List.mem_filter.mp hx).2
+      simp only [nE, decide_eq_true_eq] at this
+      simp only [nE]; omega
+  have hsegZ : seg = below ++ Z := hsplit0
+  have hlinkZ : linkedBlks c.lib.id (Z.map (·.blk)) := by
+    apply linkedBlks_of_linkedE
+    · apply linkedE_append_right below Z; rw [← hsegZ]; exact hlinkE
+    · intro f hf
+      cases hZc : Z with
+      | nil => rw [hZc] at hf; cases hf
+      | cons z R =>
+        rw [hZc] at hf
+        simp only [List.head?_cons, Option.some.injEq] at hf
+        subst hf
+        have hl2 : LinkedE (below ++ z :: R) := by rw [← hZc, ← hsegZ]; exact hlinkE
+        rw [linkedE_append_head below z R el hl2 hbelow_last, helid]
+  -- the burst only concerns the blocks above the cursor LIB
+  have hfp : fastPath s h seg c = fastPath s h (B1a ++ B1b ++ B2a ++ B2b) c := by
+    rw [← hZ, fastPath_eq, fastPath_eq]
+    have : seg.filterMap (fastEv s h c) = (below ++ Z).filterMap (fastEv s h c) := by rw [← hsegZ]
+    rw [this, List.filterMap_append, filterMap_fastEv_below s h c below (by
+      intro e he
+      have := (List.mem_filter.mp he).2
+      simpa [nE, cl] using this)]
+    rfl
+  have hheld : seg.filter (fun e => decide (c.lib.num < e.blk.num) && decide (e.blk.num ≤ c.block.num)) = B1a ++ B2a := by
+    have e1 : Z.filter (fun a => decide (nE a ≤ cbn)) = B1a ++ B2a := by
+      have : Z = Z1 ++ Z2 := hsplit1
+      rw [this, List.filter_append]
+    rw [← e1]
+    show _ = (seg.filter (fun a => decide (cl < nE a))).filter (fun a => decide (nE a ≤ cbn))
+    rw [List.filter_filter]
+    apply List.filter_congr
+    intro x _
+    simp [nE, cl, cbn, Bool.and_comm]
+  have hmain := burst_takes_consumer_to_hub_chain s h c B1a B1b B2a B2b hu z1a z1b z2a z2b hzone
+    (by rw [← hZ]; exact hlinkZ)
+  -- the blocks above the hub LIB are the pending chain; the final ones end with the LIB block
+  have hcl' : cl ≤ L := hcl
+  have hZ2 : B2a ++ B2b = PE := by
+    have e3 : Z2 = B2a ++ B2b := hsplit1b
+    rw [← e3]
+    show (seg.filter (fun a => decide (cl < nE a))).filter (fun a => decide (L < nE a)) = PE
+    rw [List.filter_filter, hseg, List.filter_append]
+    have k0 : K.filter (fun a => decide (L < nE a) && decide (cl < nE a)) = [] := by
+      rw [List.filter_eq_nil_iff]
+      intro e he
+      have := hK e he
+      simp [nE, L]; omega
+    have p0 : PE.filter (fun a => decide (L < nE a) && decide (cl < nE a)) = PE := by
+      rw [List.filter_eq_self]
+      intro e he
+      have := hPE e he
+      simp [nE, L, cl]; omega
+    rw [k0, p0]; rfl
+  have hZ1 : B1a ++ B1b = K.filter (fun a => decide (cl < nE a)) := by
+    have e2 : Z1 = B1a ++ B1b := hsplit1a
+    rw [← e2]
+    show (seg.filter (fun a => decide (cl < nE a))).filter (fun a => decide (nE a ≤ L)) = _
+    rw [List.filter_filter, hseg, List.filter_append]
+    have p0 : PE.filter (fun a => decide (nE a ≤ L) && decide (cl < nE a)) = [] := by
+      rw [List.filter_eq_nil_iff]
+      intro e he
+      have := hPE e he
+      simp [nE, L]; omega
+    have k0 : K.filter (fun a => decide (nE a ≤ L) && decide (cl < nE a)) = K.filter (fun a => decide (cl < nE a)) := by
+      apply List.filter_congr
+      intro e he
+      have := hK e he
+      simp [nE, L]; omega
+    rw [p0, k0, List.append_nil]
+  have hKasc : Asc nE K := asc_sublist nE hasc (by rw [hseg]; exact List.sublist_append_left K PE)
+  have htop : topOf c.lib.id ((B1a ++ B1b).map (·.blk.id)) = s.db.libRef.id := by
+    rw [hZ1]
+    have hKsplit := split_at nE cl K hKasc
+    cases hne : K.filter (fun a => decide (cl < nE a)) with
+    | nil =>
+      -- every retained final block is at or below the cursor LIB: the cursor LIB is the hub's LIB
+      simp only [List.map_nil, topOf_nil]
+      have helK : el ∈ K := by
+        rw [hseg] at hel
+        rcases List.mem_append.mp hel with h1 | h1
+        · exact h1
+        · exact absurd (by omega : el.blk.num ≤ s.db.libRef.num) (hPE el h1)
+      rcases hlast with hnil | ⟨eL, hg, hid⟩
+      · rw [hnil] at helK; cases helK
+      · have heLK : eL ∈ K := List.mem_of_getLast? hg
+        have heLnum : eL.blk.num = s.db.libRef.num :=
+          hI.heights.2.2 eL (find_mem s.db _ eL (hstored eL (by rw [hseg]; exact List.mem_append_left _ heLK))) hid
+        have hle : eL.blk.num ≤ cl := by
+          have : eL ∉ K.filter (fun a => decide (cl < nE a)) := by rw [hne]; simp
+          have h2 : ¬ (cl < eL.blk.num) := by
+            intro hlt; apply this; exact List.mem_filter.mpr ⟨heLK, by simpa [nE] using hlt⟩
+          omega
+        have : el = eL := key_inj nE K hKasc el eL helK heLK (by simp only [nE]; omega)
+        rw [← helid, this, hid]
+    | cons a t =>
+      rcases hlast with hnil | ⟨eL, hg, hid⟩
+      · rw [hnil] at hne; cases hne
+      · have hlastK : (K.filter (fun a => decide (cl < nE a))).getLast? = some eL := by
+          have : K.getLast? = ((K.filter (fun a => decide (nE a ≤ cl))) ++ (K.filter (fun a => decide (cl < nE a)))).getLast? := by
+            rw [← hKsplit]
+          rw [this, List.getLast?_append, hne] at hg
+          rw [hne]
+          simpa using hg
+        rw [← hne]
+        unfold topOf
+        rw [List.getLast?_map, hlastK]
+        simpa using hid
+  refine ⟨?_, ?_⟩
+  · -- served by the fast path
+    cases hsg : seg with
+    | nil => rw [hsg] at hel; cases hel
+    | cons first rest =>
+      rw [hsg] at hs
+      have hfirst : ¬ c.lib.num < first.blk.num := by
+        have hp := List.pairwise_cons.mp (by rw [hsg] at hasc; exact hasc)
+        rw [hsg] at hel
+        rcases List.mem_cons.mp hel with rfl | h1
+        · omega
+        · have := hp.1 el h1; simp only [nE] at this; omega
+      have hb : blockIn c.block.id (first :: rest) = true := by
+        unfold blockIn
+        rw [← hsg]
+        exact List.any_eq_true.mpr ⟨eb, heb, by simp [hebid]⟩
+      have hl : blockIn c.lib.id (first :: rest) = true := by
+        unfold blockIn
+        rw [← hsg]
+        exact List.any_eq_true.mpr ⟨el, hel, by simp [helid]⟩
+      exact served_on_chain s 0 c h first rest hs hfirst hb hl
+  · rw [hheld, hfp, List.map_append]
+    have := hmain
+    rw [htop, hZ2, hP] at this
+    simpa [List.map_append] using this
+
+end StateLevel
+
+/-! Non-vacuity of `resume_new_cursor_on_hub_chain`: a hub (known LIB `r`, ten final blocks kept) that has received
+    a2…a5 stands on LIB a3 with a4, a5 pending and still holds a2, a3. A consumer that disconnected at the cursor
+    "New a3, LIB a2" (holding a3 above a2) reconnects: a3 is announced final, a4 and a5 are delivered New, and it stands
+    on ⟨a3, [a4, a5]⟩ — the hub's own consumer state. -/
+section Example
+private def cfgK : Forkable.Config :=
+  { root := some (.exclusive ⟨"r", 1⟩), hold := false, kept := 10, allTrigger := false, filter := 51, fsb := 0 }
+private def uK : List Blk := [⟨"a2", "r", 2, 1⟩, ⟨"a3", "a2", 3, 1⟩, ⟨"a4", "a3", 4, 2⟩, ⟨"a5", "a4", 5, 3⟩]
+private def sK : FState := (runHistory cfgK (Forkable.init cfgK) uK).1
+private def cK : Cur := ⟨.new, ⟨"a3", 3⟩, ⟨"a3", 3⟩, ⟨"a2", 2⟩⟩
+
+example : ∃ burst P, blocksFromCursor sK 1 cK = some burst ∧
+    (⟨"a2", ["a3"]⟩ : CS).run burst = some ⟨"a3", P⟩ := by
+  have hU : UOK (ofList uK) := uokB_sound uK (by decide)
+  have hI0 := Props.C01.init_inv cfgK ⟨"r", 1⟩ (by decide) rfl
+  have hJ0 : Inv2 (ofList uK) ["r"] (Forkable.init cfgK).db := by
+    apply Props.C01.init_inv2 cfgK ⟨"r", 1⟩ rfl
+    · intro b hb hp
+      exact (by decide : ∀ x ∈ uK, x.parent = "r" → 1 < x.num) b (ofList_mem uK _ b hb).1 hp
+    · intro b hb hid
+      exact (by decide : ∀ x ∈ uK, x.id = "r" → x.num = 1) b (ofList_mem uK _ b hb).1 hid
+  obtain ⟨P, _, hI, _⟩ := Props.C01.history_invariants_consistent cfgK (by decide) (by decide) (by decide)
+    (ofList uK) hU uK ["r"] (Forkable.init cfgK) [] hI0 hJ0
+    (fun b hb => ofList_of_mem uK (by decide) b hb) (libHistB_sound cfgK uK _ (by decide)) (Or.inl rfl)
+  have hs : headSegment sK = some (⟨"a5", "a4", 5, 3⟩,
+      [⟨⟨"a2", "r", 2, 1⟩, true⟩, ⟨⟨"a3", "a2", 3, 1⟩, true⟩, ⟨⟨"a4", "a3", 4, 2⟩, true⟩, ⟨⟨"a5", "a4", 5, 3⟩, true⟩]) := by decide
+  obtain ⟨h1, h2⟩ := resume_new_cursor_on_hub_chain sK P hI _ _ hs
+    (by intro e he
+        have hd : (sK.db.find "a5").map (·.blk.num) = some 5 := by decide
+        rw [he] at hd; simpa using hd)
+    cK (by decide) ⟨⟨"a2", "r", 2, 1⟩, true⟩ (by decide) rfl rfl ⟨⟨"a3", "a2", 3, 1⟩, true⟩ (by decide) rfl (by decide)
+  refine ⟨_, P, h1, ?_⟩
+  have : (sK.db.libRef.id) = "a3" := by decide
+  rw [← this]
+  exact h2
+
+example : ((blocksFromCursor sK 1 cK).map (·.map (fun e => (e.step, e.blk.id)))) =
+    some [(.irreversible, "a3"), (.new, "a4"), (.new, "a5")] := by decide
+end Example
 
 end BstreamVerif.Props.C05
